@@ -213,7 +213,12 @@ TMaintain == IsEvent("Maintain") /\ E.ok /\ db' = db /\ prev' = db
 TLoad == IsEvent("Load") /\ db' = DumpState(E) /\ prev' = DumpState(E) /\ DbInv(DumpState(E))
 TNote == IsEvent("Note") /\ Same
 
-TNext == TReset \/ TLoad \/ TNote \/ TMut \/ TTx \/ TSelectValues \/ TSelectKeys \/ TSelectKeyCount \/ TSelectAliases
+\* C22: an element stored from a user type (derive macro) was selected back AS THAT TYPE: the select succeeded and the
+\* typed value equals the one written (equality decided by the driver with the type's PartialEq); the key-values the
+\* element holds are validated by the InsertValues event (hand-written expected pairs) and the Observe around it
+TTypedRead == IsEvent("TypedRead") /\ Same /\ E.ok /\ E.eq /\ E.id \in db.nodes
+
+TNext == TReset \/ TLoad \/ TNote \/ TTypedRead \/ TMut \/ TTx \/ TSelectValues \/ TSelectKeys \/ TSelectKeyCount \/ TSelectAliases
          \/ TSelectAllAliases \/ TSelectEdgeCount \/ TSelectNodeCount \/ TSelectIndexes \/ TSearchIndex
          \/ TElements \/ TSelectIds \/ TObserve \/ TMaintain \/ TSearch \/ TCrashProbe
 
